@@ -42,7 +42,8 @@ def gen_opts(rng):
     return dict(lstrip=rng.random() < .3, rstrip=rng.random() < .3,
                 ignore_substrings=rng.choice([[], [], ['DATE'], ['a', 'opt'], ['é']]),
                 ignore_patterns=rng.choice(PATTERNS),
-                remove_lines=rng.choice([[], [], ['opt'], ['x1', 'DATE'], ['b']]),
+                remove_lines=rng.choice([[], [], [], ['opt'], ['x1', 'DATE'], ['b'], ['v1.0'], ['a+b'], ['[debug]'], ['(', 'opt'],
+                                         ['.'], ['|']]),
                 max_permutation_cases=rng.choice([0, 0, 1, 2, 5]),
                 preprocess=rng.choice([None, None, None, 'upper', 'dropfirst']))
 
